@@ -92,3 +92,10 @@ CHECKS.update({
     note='Thread interleavings are sampled, not enumerated (no schedule control): the concurrent half is randomised stress. Outcomes come from the code under test in a fresh process.',
     technique='exhaustive short-history enumeration + Hypothesis history generation + randomised thread stress; fresh-process differential oracle'),
 })
+CHECKS.update({
+ 'C18': dict(
+    category='fault_enumeration',
+    text='Hypothesis-generated scenarios of io.read / io.write over recording stream doubles (stream arrangements, factories vs open streams, absolute / relative / missing names, normalisation flags, sourceMappingURL modes); each scenario is run fault-free against the lower-level API (printer text, sourcemap.write, encode) and then once per event - every factory call, read, parser call, fragment pulled, write and writelines - with a marker exception injected at exactly that event; closing discipline and exception propagation are checked on every run.',
+    note='Faults are injected on the enumerated event kinds, not on close(); the lower-level API of the library itself is the reference for the map content (C09 checks that API).',
+    technique='fault-point enumeration over Hypothesis-generated scenarios with recording doubles'),
+})
